@@ -1,6 +1,7 @@
 """Regenerates OdakModel/Generated/IndexExprs.lean from the index arithmetic in /repo's source."""
 import ast
 import os
+import re
 from .pyexpr import ExprTranslator, TranslateError, find_function, symexec, Sym
 
 REPO = os.environ.get('ODAK_REPO', '/repo')
@@ -184,23 +185,48 @@ def pyramid_pad(defs):
         defs.append((nm, 'H W D', found[k]))
 
 
+PREFIX = {('torch_zero_pad', False): 'torchPadDef_', ('torch_zero_pad', True): 'torchPadExp_',
+          ('torch_crop_center', False): 'torchCropDef_', ('torch_crop_center', True): 'torchCropExp_',
+          ('numpy_zero_pad', False): 'npPadDef_', ('numpy_zero_pad', True): 'npPadExp_',
+          ('numpy_crop_center', False): 'npCropDef_', ('numpy_crop_center', True): 'npCropExp_',
+          ('numpy_gs',): 'npGsCrop_', ('pyramid_pad',): 'pyr'}
+
+
 def generate():
     """returns (lean_text, errors)"""
     defs, errors = [], []
     jobs = [(torch_zero_pad, (False,)), (torch_zero_pad, (True,)), (torch_crop_center, (False,)),
             (torch_crop_center, (True,)), (numpy_zero_pad, (False,)), (numpy_zero_pad, (True,)),
             (numpy_crop_center, (False,)), (numpy_crop_center, (True,)), (numpy_gs, ()), (pyramid_pad, ())]
+    # a job that cannot be extracted keeps the definitions it produced last time (read back from the present file)
+    old = {}
+    try:
+        from ..lib.core import LEAN
+        with open(os.path.join(LEAN, 'OdakModel', 'Generated', 'IndexExprs.lean')) as fh:
+            for line in fh:
+                m = re.match(r'def (\w+) \(([^:]*) : Int\) : Int := (.*)$', line.rstrip('\n'))
+                if m:
+                    old[m.group(1)] = (m.group(1), m.group(2), m.group(3))
+    except OSError:
+        pass
     for f, a in jobs:
+        before = len(defs)
         try:
             f(defs, *a)
-        except (TranslateError, KeyError, IndexError, AttributeError, SyntaxError, OSError) as e:
+        except (TranslateError, KeyError, IndexError, AttributeError, SyntaxError, OSError, TypeError, ValueError) as e:
             errors.append('%s%s: %s' % (f.__name__, a, e))
+            del defs[before:]
+            pref = PREFIX[(f.__name__,) + tuple(a)]
+            defs += [v for k, v in old.items() if k.startswith(pref)]
     out = ['/- GENERATED by harness/translate/index_exprs.py from the source under /repo – do not edit. -/',
            'namespace Odak.Gen', '']
     for name, params, body in defs:
         out.append('def %s (%s : Int) : Int := %s' % (name, params, body))
     out += ['', 'end Odak.Gen', '']
     return '\n'.join(out), errors
+
+
+generate.partial_ok = True      # failed jobs carry their previous definitions over
 
 
 if __name__ == '__main__':
